@@ -624,3 +624,26 @@ V("C05", "name-from-other-tokens", "fire", (SU, "        name_token = next(t for
 V("C05", "cached-loc-other", "fire", (SCN, "            cached_entry.loc,\n", "            len(cached_entry.measurements()),\n"), "reused entry's total is the number of functions", "_scan_file/SourceFileEntry")
 V("C05", "unfold-children-first", "fire", (SU, "        result.append(scope)\n        result.extend(unfold_scopes(scope.children))", "        result.extend(unfold_scopes(scope.children))\n        result.append(scope)"),
   "nested functions listed before their parent", "unfold_scopes")
+
+# ------------------------------------------------------------------ C11
+CONF = "codelimit/common/Configuration.py"
+MAIN = "codelimit/__main__.py"
+V("C11", "dirs-rebound", "fire", (SCN, "        dirs[:] = [d for d in dirs if not d[0] == \".\"]", "        dirs = [d for d in dirs if not d[0] == \".\"]"), "hidden directories are walked", "scan_path/dirs-pruning")
+V("C11", "dirs-startswith-silent", "silent", (SCN, "        dirs[:] = [d for d in dirs if not d[0] == \".\"]", "        dirs[:] = [d for d in dirs if not d.startswith(\".\")]"), "same predicate")
+V("C11", "files-not-filtered", "fire", (SCN, "        files = [f for f in files if not f[0] == \".\"]\n", ""), "hidden files analysed", "files-filter")
+V("C11", "dirs-underscore-too", "fire", (SCN, "        dirs[:] = [d for d in dirs if not d[0] == \".\"]", "        dirs[:] = [d for d in dirs if not d[0] in \"._\"]"), "underscore directories pruned as well", "dirs-pruning")
+V("C11", "excluded-absolute-path", "fire", (SCN, "            if is_excluded(rel_path, excludes_spec):", "            if is_excluded(Path(os.path.join(root, file)), excludes_spec):"),
+  "absolute path tested against root-relative patterns", "excluded-path")
+V("C11", "exclusion-after-analysis", "fire", (SCN, "            if is_excluded(rel_path, excludes_spec):\n                continue\n            try:", "            try:"),
+  "excluded files analysed", "no-exclusion-test")
+V("C11", "spec-without-gitignore", "fire", (SCN, "    if gitignore_excludes:\n        excludes.extend(gitignore_excludes)\n", ""), ".gitignore ignored", "missing-the root .gitignore")
+V("C11", "spec-without-config", "fire", (SCN, "    excludes.extend(Configuration.exclude)\n", ""), "configured exclusions ignored", "missing-Configuration.exclude")
+V("C11", "spec-gitignore-from-cwd", "fire", (SCN, "    gitignore_excludes = _read_gitignore(root)", "    gitignore_excludes = _read_gitignore(Path.cwd())"), ".gitignore of the working directory used", "gitignore-root")
+V("C11", "cli-exclude-replaces", "fire", (MAIN, "    if exclude:\n        Configuration.exclude.extend(exclude)\n    if verbose:\n        Configuration.verbose = True\n    Configuration.load(path)",
+                                          "    if exclude:\n        Configuration.exclude = list(exclude)\n    if verbose:\n        Configuration.verbose = True\n    Configuration.load(path)"),
+  "rebinding instead of accumulating", "exclude-rebound")
+V("C11", "entry-key-absolute", "fire", (SCN, "    rel_path = relpath(path, root)\n    cached_entry = None", "    rel_path = path\n    cached_entry = None"), "files keyed by absolute path", "_scan_file")
+V("C11", "checksum-of-name", "fire", (SCN, "    checksum = calculate_checksum(path)\n", "    checksum = calculate_checksum(path) if False else str(hash(path))\n"), "checksum not of the bytes", "checksum")
+V("C11", "is-excluded-negated", "fire", (SCN, "    return spec.match_file(path)", "    return not spec.match_file(path)"), "selection inverted", "is_excluded/definition")
+V("C11", "new-caller-of-analyze", "fire", (SCN, "def generate_exclude_spec(root: Path) -> PathSpec:", "def analyze_one(path, lexer):\n    return _analyze_file(path, path, calculate_checksum(path), lexer)\n\n\ndef generate_exclude_spec(root: Path) -> PathSpec:"),
+  "analysis reachable outside the guards", "_analyze_file<-")
